@@ -343,8 +343,11 @@ fn run_conformance(ctx: &mut Ctx, prop: &'static str, family: Family, quick_rand
         } else if sel < 960 {
             // k*b + d - 1 for k in 0..=8, d in 0..3
             (((l as usize) % 9) * b + ((l as usize >> 8) % 3)).saturating_sub(1)
-        } else if sel < 992 {
+        } else if sel < 985 {
             (l as usize) * 4 % 20_000
+        } else if sel < 992 {
+            // long exact multiples of the block size (bulk paths that split off a tail)
+            b * (16 + (l as usize) % 1100)
         } else {
             ((seed as usize) % long_max).max(1)
         };
